@@ -82,4 +82,13 @@ def main(argv=None) -> int:
 
 
 if __name__ == "__main__":
-    sys.exit(main())
+    try:
+        rc = main()
+    except SystemExit:
+        raise
+    except BaseException as e:  # a crash of the machinery is an analysis error (exit 2), never a verdict
+        import traceback
+        tb = " | ".join(traceback.format_exc().strip().splitlines()[-6:])
+        print(f"ANALYSIS-ERROR internal error outside a rule: {type(e).__name__}: {e} :: {tb}")
+        rc = 2
+    sys.exit(rc)
